@@ -9,6 +9,7 @@ crash: the save runs in a forked child that really dies before/after every IO ca
 """
 import glob
 import os
+import shutil
 
 import numpy as np
 from hypothesis import strategies as st
@@ -45,7 +46,7 @@ def rr_cases(draw):
     return {"kernel": draw(st.sampled_from(["tpcn", "rwm"])), "resample": draw(st.sampled_from(["mult", "syst"])),
             "clustering": draw(st.booleans()), "mode": mode, "pool": pool, "d": draw(st.integers(1, 3)),
             "save_every": draw(st.sampled_from([1, 2, 3])), "seed": draw(st.integers(0, 2**31 - 2)),
-            "random_state": draw(st.one_of(st.none(), st.integers(0, 10**6)))}
+            "random_state": draw(st.one_of(st.none(), st.integers(0, 10**6))), "resume_mult": draw(st.sampled_from([1, 1, 2, 3]))}
 
 
 def build(case, outdir):
@@ -100,8 +101,9 @@ def exec_rr(case):
             # (2) resume on another fresh sampler
             s3, t3 = build(case, od)
             np.random.seed(case["seed"] + 1)
+            n_total_res = n_total * int(case.get("resume_mult", 1))  # the resumed run may ask for more samples than the first one
             with quiet():
-                lib_call(s3.run, n_total=n_total, progress=False, resume_state_path=f, what="Sampler.run(resume_state_path=...)")
+                lib_call(s3.run, n_total=n_total_res, progress=False, resume_state_path=f, what="Sampler.run(resume_state_path=...)")
             st3 = s3.state
             T = st3.get_history_length()
             after = history_snapshot(st3)
@@ -126,9 +128,9 @@ def exec_rr(case):
                 raise Violation(f"resume from {name}: temperature schedule not monotone across the resume: {betas}", sig={"kind": "resume-beta"})
             L = [np.asarray(st3.get_history("logl", index=i), dtype=float) for i in range(T)]
             lw, lz, _ = mis_logw(L, betas, [float(z) for z in st3.get_history("logz")], 1.0)
-            if abs(1 - betas[-1]) >= 1e-4 or ess_from_logw(lw) < n_total * (1 - 1e-9) or abs(float(s3.evidence()[0]) - float(lz)) > 1e-9 * max(1, abs(float(lz))):
+            if abs(1 - betas[-1]) >= 1e-4 or ess_from_logw(lw) < n_total_res * (1 - 1e-9) or abs(float(s3.evidence()[0]) - float(lz)) > 1e-9 * max(1, abs(float(lz))):
                 raise Violation(f"resume from {name}: run postconditions violated (beta {betas[-1]!r}, ESS {ess_from_logw(lw):.2f} vs n_total "
-                                f"{n_total}, evidence {s3.evidence()[0]!r} vs reference {float(lz)!r})", sig={"kind": "resume-postconditions"})
+                                f"{n_total_res}, evidence {s3.evidence()[0]!r} vs reference {float(lz)!r})", sig={"kind": "resume-postconditions"})
             if float(snap["current"]["beta"]) > 0 and k0 >= 3:
                 nontrivial += 1
         return {"nontrivial": nontrivial > 0,
@@ -147,111 +149,140 @@ class CrashPoints:
         {"kernel": "rwm", "resample": "syst", "clustering": True, "mode": "blobs", "pool": None, "d": 1, "random_state": 5},
         {"kernel": "tpcn", "resample": "mult", "clustering": False, "mode": "scalar", "pool": "permuting", "d": 2, "random_state": None},
         {"kernel": "rwm", "resample": "mult", "clustering": True, "mode": "vector", "pool": None, "d": 3, "random_state": 11},
+        # a realistically sized checkpoint (> 64 KiB: several pickle frames, small trailing writes stay in the user-space buffer)
+        {"kernel": "rwm", "resample": "mult", "clustering": False, "mode": "vector", "pool": None, "d": 3, "random_state": None, "big": True},
     ]
 
     def n_tasks(self, tier, seed):
-        return 2 * (3 if tier == "quick" else 6)  # (config, scenario); the last third targets StateManager.save_state
+        return 2 * (4 if tier == "quick" else 8)  # (config, scenario); a third targets StateManager.save_state, the last one is the large checkpoint
 
     def _state(self, cfg, seed, od):
-        case = {k: v for k, v in dict(cfg, seed=seed).items() if k != "statemanager"}
+        case = {k: v for k, v in dict(cfg, seed=seed).items() if k not in ("statemanager", "big")}
         np.random.seed(seed)
-        s, t = build(case, od)
+        if cfg.get("big"):
+            t = Target.from_spec(simple_target_spec(np.random.default_rng(seed), case["d"], case["mode"]))
+            s = make_sampler(t, dict(sample=case["kernel"], resample=case["resample"], clustering=False, n_particles=384), output_dir=od)
+        else:
+            s, t = build(case, od)
         s._core._initialize_fresh()
         with quiet():
-            for _ in range(4):
+            for _ in range(6 if cfg.get("big") else 4):
                 s.sample()
         return s
 
-    def execute(self, case):
-        """case = {cfg, seed, scenario, crash: [event, how] or None}"""
-        cfg, seed, scenario, crash = case["cfg"], int(case["seed"]), case["scenario"], case["crash"]
-        with scratch_dir() as od:
-            s = self._state(cfg, seed, od)
-            path = os.path.join(od, "ck.state")
-            old = None
+    def prepare(self, cfg, seed, scenario, od):
+        """Build the sampler state once: returns (sampler, path, old_snapshot_or_None, new_snapshot, backup_of_old_file_or_None)."""
+        s = self._state(cfg, seed, od)
+        path = os.path.join(od, "ck.state")
+        saver = s.state.save_state if cfg.get("statemanager") else s.save_state
+        old, backup = None, None
+        if scenario == "existing":
+            with quiet():
+                lib_call(saver, path, what="save_state")
+            old = history_snapshot(s.state)
+            backup = path + ".backup-of-old"
+            shutil.copy(path, backup)
+            with quiet():
+                s.sample()
+        return s, path, old, history_snapshot(s.state), backup, saver
+
+    def probe(self, prepared, cfg, scenario, crash):
+        """Run the save in a forked child that dies at `crash`; judge what is left under the final name."""
+        s, path, old, new, backup, saver = prepared
+        od = os.path.dirname(path)
+        for f in os.listdir(od):  # restore the directory to its pre-save content
+            full = os.path.join(od, f)
+            if full != backup:
+                os.remove(full)
+        if backup is not None:
+            shutil.copy(backup, path)
+
+        def do_save():
+            with quiet():
+                saver(path)
+
+        code, events = run_in_child(do_save, None if crash is None else (int(crash[0]), crash[1]))
+        if crash is None:
+            if code != 0:
+                why = [k for _, k, _ in events if k.startswith("EXC:")]
+                raise Violation(f"save_state failed for configuration {cfg} ({why[0] if why else 'exit %d' % code})",
+                                sig={"kind": "save-failed", "exc": why[0].split(':')[1] if why else None})
+            return {"events": events}
+        if code not in (77, 0):
+            raise HarnessError(f"crash child exited with {code}")
+        if not os.path.exists(path):
             if scenario == "existing":
-                with quiet():
-                    lib_call(s.state.save_state if cfg.get("statemanager") else s.save_state, path, what="save_state")
-                old = history_snapshot(s.state)
-                with quiet():
-                    s.sample()
-            new = history_snapshot(s.state)
+                raise Violation(f"crash at IO event {crash}: the older complete checkpoint under the final name is gone",
+                                sig={"kind": "crash-lost-old"})
+            return {"outcome": "absent"}
+        try:
+            d = load_file(path)
+            got = {"current": d["_current"], "history": d["_history"]}
+        except Exception as e:  # noqa
+            raise Violation(f"crash at IO event {crash} ({scenario}): the file under the checkpoint's final name is truncated/unloadable "
+                            f"({type(e).__name__}: {str(e)[:80]}; {os.path.getsize(path)} bytes)", sig={"kind": "crash-unloadable"})
+        if snapshots_equal(new, got, keys=KEYS) is None:
+            return {"outcome": "new"}
+        if old is not None and snapshots_equal(old, got, keys=KEYS) is None:
+            return {"outcome": "old"}
+        raise Violation(f"crash at IO event {crash} ({scenario}): the final name holds a loadable file that equals neither the old nor "
+                        f"the new complete checkpoint", sig={"kind": "crash-mixed"})
 
-            use_sm = bool(cfg.get("statemanager"))
-
-            def do_save():
-                with quiet():
-                    (s.state.save_state if use_sm else s.save_state)(path)
-
-            code, events = run_in_child(do_save, None if crash is None else (int(crash[0]), crash[1]))
-            if crash is None:
-                if code != 0:
-                    why = [k for _, k, _ in events if k.startswith("EXC:")]
-                    raise Violation(f"save_state failed for configuration {cfg} ({why[0] if why else 'exit %d' % code})",
-                                    sig={"kind": "save-failed", "exc": why[0].split(':')[1] if why else None})
-                return {"events": events}
-            if code not in (77, 0):
-                raise HarnessError(f"crash child exited with {code}")
-            if not os.path.exists(path):
-                if scenario == "existing":
-                    raise Violation(f"crash at IO event {crash}: the older complete checkpoint under the final name is gone",
-                                    sig={"kind": "crash-lost-old"})
-                return {"outcome": "absent"}
-            try:
-                d = load_file(path)
-                got = {"current": d["_current"], "history": d["_history"]}
-            except Exception as e:  # noqa
-                raise Violation(f"crash at IO event {crash} ({scenario}): the file under the checkpoint's final name is truncated/unloadable "
-                                f"({type(e).__name__}: {str(e)[:80]}; {os.path.getsize(path)} bytes)", sig={"kind": "crash-unloadable"})
-            if snapshots_equal(new, got, keys=KEYS) is None:
-                return {"outcome": "new"}
-            if old is not None and snapshots_equal(old, got, keys=KEYS) is None:
-                return {"outcome": "old"}
-            raise Violation(f"crash at IO event {crash} ({scenario}): the final name holds a loadable file that equals neither the old nor "
-                            f"the new complete checkpoint", sig={"kind": "crash-mixed"})
+    def execute(self, case):
+        """case = {cfg, seed, scenario, crash: [event, how] or None} (self-contained: used for replays)"""
+        with scratch_dir() as od:
+            prepared = self.prepare(case["cfg"], int(case["seed"]), case["scenario"], od)
+            return self.probe(prepared, case["cfg"], case["scenario"], case["crash"])
 
     def run_task(self, pid, tier, seed, shard):
         rec = Recorder(pid, tier, seed)
-        cfg = dict(self.CONFIGS[(shard // 2 + seed) % len(self.CONFIGS)])
-        if shard // 2 >= self.n_tasks(tier, seed) // 2 * 2 // 3:
-            cfg["statemanager"] = True  # the state manager's own save_state (documented as atomic)
+        nt = self.n_tasks(tier, seed) // 2
+        if shard // 2 == nt - 1:
+            cfg = dict(self.CONFIGS[-1])  # the large checkpoint is part of every run
+        else:
+            cfg = dict(self.CONFIGS[(shard // 2 + seed) % (len(self.CONFIGS) - 1)])
+            if shard // 2 >= (nt - 1) * 2 // 3:
+                cfg["statemanager"] = True  # the state manager's own save_state (documented as atomic)
         scenario = ["absent", "existing"][shard % 2]
         base = {"cfg": cfg, "seed": (seed * 7919 + shard) % (2**31 - 1), "scenario": scenario}
-        try:
-            dry = guarded(self.execute, dict(base, crash=None))
-        except Violation as v:
-            f = rec.classify(self.name, v)
-            if f is not None:
-                rec.known(f, self.name, v)
-            else:
-                rec.violation(self.name, v, dict(base, crash=None))
-            return rec.export()
-        events = [e for e in dry["events"] if e[0] >= 0]
-        points = []
-        for i, kind, n in events:
-            points.append([i, "before"])
-            points.append([i, "after"])
-            if kind == "write" and n > 1:
-                offs = sorted({1, n // 2, n - 1})
-                if tier == "thorough":
-                    offs = sorted(set(offs) | {int(x) for x in np.random.default_rng(seed + i).integers(1, n, 17)})
-                points.extend([i, o] for o in offs)
         first_violation = None
-        for p in points:
-            case = dict(base, crash=p)
+        with scratch_dir() as od:
             try:
-                info = guarded(self.execute, case)
-                inside = isinstance(p[1], int)
-                rec.record(self.name, case, nontrivial=inside, classes=["scenario:" + scenario, "outcome:" + info["outcome"],
-                                                                         "inside-write" if inside else "at-call-boundary"],
-                           sample={"scenario": scenario, "crash_point": p, "events": [f"{k}:{n}" for _, k, n in events][:12], "outcome": info["outcome"]})
+                prepared = self.prepare(cfg, base["seed"], scenario, od)
+                dry = self.probe(prepared, cfg, scenario, None)
             except Violation as v:
                 f = rec.classify(self.name, v)
                 if f is not None:
                     rec.known(f, self.name, v)
-                elif first_violation is None:
-                    first_violation = (v, case)
-                rec.record(self.name, case, False, ["violation"])
+                else:
+                    rec.violation(self.name, v, dict(base, crash=None))
+                return rec.export()
+            events = [e for e in dry["events"] if e[0] >= 0]
+            points = []
+            for i, kind, n in events:
+                for how in ("before", "after", "before+flush", "after+flush"):
+                    points.append([i, how])
+                if kind == "write" and n > 1:
+                    offs = sorted({1, n // 2, n - 1})
+                    if tier == "thorough":
+                        offs = sorted(set(offs) | {int(x) for x in np.random.default_rng(seed + i).integers(1, n, 17)})
+                    points.extend([i, o] for o in offs)
+            for p in points:
+                case = dict(base, crash=p)
+                try:
+                    info = self.probe(prepared, cfg, scenario, p)
+                    inside = isinstance(p[1], int)
+                    rec.record(self.name, case, nontrivial=inside, classes=["scenario:" + scenario, "outcome:" + info["outcome"],
+                                                                             "inside-write" if inside else "at-call-boundary",
+                                                                             "buffers-lost" if p[1] in ("before", "after") else "buffers-flushed"],
+                               sample={"scenario": scenario, "crash_point": p, "events": [f"{k}:{n}" for _, k, n in events][:14], "outcome": info["outcome"]})
+                except Violation as v:
+                    f = rec.classify(self.name, v)
+                    if f is not None:
+                        rec.known(f, self.name, v)
+                    elif first_violation is None:
+                        first_violation = (v, case)
+                    rec.record(self.name, case, False, ["violation"])
         if first_violation is not None:
             rec.violation(self.name, *first_violation)
         rec.extra["crash_io_events"] = [f"{k}:{n}" for _, k, n in events]
